@@ -54,7 +54,6 @@ def container_may_be_nonempty(f, var, paired=None, others=()):
     swap / move / copy."""
     pushes = ("push_back", "emplace_back", "insert", "emplace", "assign", "resize")
     allv = [var] + [o for o in others if o != var]
-    block_in = {f.entry: frozenset()}
     before = {}
     work = [f.entry]
     it = 0
@@ -68,81 +67,126 @@ def container_may_be_nonempty(f, var, paired=None, others=()):
             return path(f, f.s(e["args"][0])), True
         return (path(f, e) if e is not None else None), False
 
+    def transfer(st_, s):
+        """effect of statement s on one world (a set of atoms: names of containers that may hold elements, and facts
+        'B+<id>' / 'B-<id>' about bool locals that were last assigned a literal)"""
+        if s["k"] == "CXXMemberCallExpr" and path(f, f.s(s["obj"])) in allv:
+            nm = s["callee"]["name"]
+            v = path(f, f.s(s["obj"]))
+            if nm in pushes:
+                st_.add(v)
+            elif nm == "clear":
+                st_.discard(v)
+            elif nm == "swap" and s["args"]:
+                o = path(f, f.s(s["args"][0]))
+                a_, b_ = v in st_, o in st_
+                (st_.add if b_ else st_.discard)(v)
+                if o in allv:
+                    (st_.add if a_ else st_.discard)(o)
+        elif s["k"] == "CallExpr" and callee_fq(s) == "std::swap" and len(s["args"]) == 2:
+            x, y = path(f, f.s(s["args"][0])), path(f, f.s(s["args"][1]))
+            if x in allv or y in allv:
+                a_, b_ = x in st_, y in st_
+                if x in allv:
+                    (st_.add if b_ else st_.discard)(x)
+                if y in allv:
+                    (st_.add if a_ else st_.discard)(y)
+        elif s["k"] == "DeclStmt":
+            for d in s["decls"]:
+                v = "l:" + d["name"]
+                if v not in allv:
+                    iu = unwrap(f, f.s(d.get("init"))) if d.get("init") else None
+                    st_.discard("B+" + d["id"])
+                    st_.discard("B-" + d["id"])
+                    if iu is not None and iu["k"] == "CXXBoolLiteralExpr":
+                        st_.add(("B+" if iu["v"] else "B-") + d["id"])
+                    continue
+                st_.discard(v)
+                if d.get("init"):
+                    src, mv = moved_src(f.s(d["init"]))
+                    if src in allv and src in st_:
+                        st_.add(v)
+                        if mv:
+                            st_.discard(src)
+                    elif src is not None and src not in allv and unwrap(f, f.s(d["init"])) is not None and \
+                            (unwrap(f, f.s(d["init"])) or {}).get("args"):
+                        st_.add(v)         # built from something else: may hold elements
+        elif s["k"] == "CXXOperatorCallExpr" and s.get("op") == "=" and path(f, f.s(s["args"][0])) in allv:
+            v = path(f, f.s(s["args"][0]))
+            src, mv = moved_src(f.s(s["args"][1]))
+            if src in allv:
+                (st_.add if src in st_ else st_.discard)(v)
+                if mv:
+                    st_.discard(src)
+            else:
+                st_.add(v)
+        elif s["k"] == "BinaryOperator" and s.get("op") == "=":
+            # a bool local (or the result variable of an inlined helper) given a literal: remembered, so that a later
+            # branch on it selects the worlds in which it was set that way
+            l, r = f.children(s)
+            lu, ru = unwrap(f, l) if l is not None and l["k"] != "DeclRefExpr" else l, unwrap(f, r)
+            if lu is not None and lu["k"] == "DeclRefExpr" and lu["d"].get("k") == "local":
+                st_.discard("B+" + lu["d"]["id"])
+                st_.discard("B-" + lu["d"]["id"])
+                if ru is not None and ru["k"] == "CXXBoolLiteralExpr":
+                    st_.add(("B+" if ru["v"] else "B-") + lu["d"]["id"])
+
+    def names(worlds):
+        out_ = set()
+        for w in worlds:
+            out_ |= {a for a in w if not a.startswith(("B+", "B-"))}
+        return frozenset(out_)
+
+    block_in = {f.entry: frozenset([frozenset()])}
     while work and it < 3000:
         it += 1
         b = work.pop(0)
-        st_ = set(block_in[b])
+        worlds = [set(w) for w in block_in[b]]
         blk = f.blocks[b]
         for i, e in enumerate(blk.elems):
-            before[(b, i)] = frozenset(st_)
+            before[(b, i)] = names(worlds)
             if e["k"] == "S":
                 s = f.stmts[e["s"]]
-                if s["k"] == "CXXMemberCallExpr" and path(f, f.s(s["obj"])) in allv:
-                    nm = s["callee"]["name"]
-                    v = path(f, f.s(s["obj"]))
-                    if nm in pushes:
-                        st_.add(v)
-                    elif nm == "clear":
-                        st_.discard(v)
-                    elif nm == "swap" and s["args"]:
-                        o = path(f, f.s(s["args"][0]))
-                        a_, b_ = v in st_, o in st_
-                        (st_.add if b_ else st_.discard)(v)
-                        if o in allv:
-                            (st_.add if a_ else st_.discard)(o)
-                elif s["k"] == "CallExpr" and callee_fq(s) == "std::swap" and len(s["args"]) == 2:
-                    x, y = path(f, f.s(s["args"][0])), path(f, f.s(s["args"][1]))
-                    if x in allv or y in allv:
-                        a_, b_ = x in st_, y in st_
-                        if x in allv:
-                            (st_.add if b_ else st_.discard)(x)
-                        if y in allv:
-                            (st_.add if a_ else st_.discard)(y)
-                elif s["k"] == "DeclStmt":
-                    for d in s["decls"]:
-                        v = "l:" + d["name"]
-                        if v not in allv:
-                            continue
-                        st_.discard(v)
-                        if d.get("init"):
-                            src, mv = moved_src(f.s(d["init"]))
-                            if src in allv and src in st_:
-                                st_.add(v)
-                                if mv:
-                                    st_.discard(src)
-                            elif src is not None and src not in allv and unwrap(f, f.s(d["init"])) is not None and \
-                                    (unwrap(f, f.s(d["init"])) or {}).get("args"):
-                                st_.add(v)         # built from something else: may hold elements
-                elif s["k"] == "CXXOperatorCallExpr" and s.get("op") == "=" and path(f, f.s(s["args"][0])) in allv:
-                    v = path(f, f.s(s["args"][0]))
-                    src, mv = moved_src(f.s(s["args"][1]))
-                    if src in allv:
-                        (st_.add if src in st_ else st_.discard)(v)
-                        if mv:
-                            st_.discard(src)
-                    else:
-                        st_.add(v)
-        outs = [frozenset(st_)] * len(blk.succs)
+                for w in worlds:
+                    transfer(w, s)
+        allw = frozenset(frozenset(w) for w in worlds)
+        outs = [allw] * len(blk.succs)
         if blk.term and blk.term.get("cond") and len(blk.succs) == 2:
-            c = unwrap(f, f.s(blk.term["cond"]))
+            c = f.s(blk.term["cond"])
             neg = False
-            while c is not None and c["k"] == "UnaryOperator" and c["op"] == "!":
+            cu = unwrap(f, c) if c is not None and c["k"] != "DeclRefExpr" else c
+            while cu is not None and cu["k"] == "UnaryOperator" and cu["op"] == "!":
                 neg = not neg
-                c = unwrap(f, f.children(c)[0])
-            if c is not None and c["k"] == "CXXMemberCallExpr" and c["callee"]["name"] == "empty":
-                cp_ = path(f, f.s(c["obj"]))
+                c = f.children(cu)[0]
+                cu = unwrap(f, c) if c is not None and c["k"] != "DeclRefExpr" else c
+            # (unwrap looks through the result variable of an inlined helper with a single return; keep the variable)
+            cv_ = c
+            while cv_ is not None and cv_["k"] in ("ImplicitCastExpr", "ParenExpr", "ExprWithCleanups"):
+                ch_ = f.children(cv_)
+                cv_ = ch_[0] if ch_ else None
+            if cu is not None and cu["k"] == "CXXMemberCallExpr" and cu["callee"]["name"] == "empty":
+                cp_ = path(f, f.s(cu["obj"]))
                 pset = paired if isinstance(paired, (set, frozenset, list, tuple)) else ([paired] if paired else [])
                 tested = [cp_] if cp_ in allv else ([var] if cp_ in pset else [])
                 if tested:
-                    emp = frozenset(x for x in st_ if x not in tested)
+                    emp = frozenset(frozenset(x for x in w if x not in tested) for w in allw)
                     t_empty = not neg
-                    outs = [emp if t_empty else frozenset(st_), frozenset(st_) if t_empty else emp]
+                    outs = [emp if t_empty else allw, allw if t_empty else emp]
+            elif cv_ is not None and cv_["k"] == "DeclRefExpr" and cv_["d"].get("k") == "local":
+                did = cv_["d"]["id"]
+                t_w = frozenset(w for w in allw if ("B-" + did) not in w)
+                f_w = frozenset(w for w in allw if ("B+" + did) not in w)
+                outs = [f_w, t_w] if neg else [t_w, f_w]
         for idx, s in enumerate(blk.succs):
             if s is None:
                 continue
             new_ = outs[idx]
+            if not new_:
+                continue        # no world takes this edge
             old = block_in.get(s)
             j_ = new_ if old is None else (old | new_)
+            if len(j_) > 96:
+                j_ = frozenset([names(j_)])      # too many combinations: forget the bool facts
             if old is None or j_ != old:
                 block_in[s] = j_
                 if s not in work:
